@@ -366,6 +366,12 @@ func (s *Store) mergeSegStacks(footer *Footer, splicePoint int,
 	}
 
 	if footerSS != nil {
+		if splicePoint > lenFooterSS {
+			// A child collection can have fewer persisted segments
+			// than its parent, whose splice point this is.
+			splicePoint = lenFooterSS
+		}
+
 		rv.a = append(rv.a, footerSS.a[splicePoint:]...)
 
 		if splicePoint > 0 {
@@ -405,6 +411,12 @@ func (s *Store) mergeSegStacks(footer *Footer, splicePoint int,
 }
 
 func (right *Footer) spliceFooter(left *Footer, splicePoint int) {
+	if splicePoint > len(left.SegmentLocs) {
+		// Same clamping as in mergeSegStacks(): a child collection can
+		// have fewer persisted segments than its parent.
+		splicePoint = len(left.SegmentLocs)
+	}
+
 	slocs := make([]SegmentLoc, splicePoint, splicePoint+len(right.SegmentLocs))
 	copy(slocs, left.SegmentLocs[0:splicePoint])
 	slocs = append(slocs, right.SegmentLocs...)
